@@ -109,6 +109,9 @@ func c14FaultyAtoms() []c14Atom {
 		{"split(value, ',') = split(value, ',')", 'B', "= on lists"},
 		{"json(value) > json(value)", 'B', "ordering on JSON"},
 		{"split(value, ',') ^= 'a'", 'B', "^= on a list"},
+		{"json(value)['a'][true] = 'x'", 'B', "Boolean as a field index"},
+		{"json(value)['a'][key = 'a'] = 'x'", 'B', "Boolean as a field index"},
+		{"json(value)['a'][list(1)] = 'x'", 'B', "list as a field index"},
 		{"true in (true, false)", 'B', "IN on Booleans"},
 		{"is_int(value) in (true)", 'B', "IN on Booleans"},
 		{"(key = 'a') in (true, false)", 'B', "IN on Booleans"},
@@ -189,6 +192,16 @@ func c14StmtCtxs() []c14Ctx {
 		{"select key, {} as x where key = 'a' order by key desc", 0, "", false, 0},
 		{"select {} as g, count(1) where true group by g", 0, "LJ", false, 0},
 		{"select count(1), sum({}) where true", 0, "", false, 0},
+		// fields defined through other fields: their types are known only once the names are resolved
+		{"select key as a, (a + {}) as b where true", 'T', "NBLJ", false, 0},
+		{"select key as a, (a + 'x' + {}) as b where true", 'T', "NBLJ", false, 0},
+		{"select key as a, a + 'x' as b, (b + {}) as c where true", 'T', "NBLJ", false, 0},
+		{"select int(value) as n, (n + {}) as m where true", 'N', "TBLJ", false, 0},
+		{"select int(value) as n, n + 1 as m, (m * {}) as k where true", 'N', "TBLJ", false, 0},
+		{"select key as a, a + 'x' as b where b = {}", 'T', "NBLJ", false, 0},
+		{"select key as a, a + 'x' as b where {} != b", 'T', "NBLJ", false, 0},
+		{"select int(value) as n, n + 1 as m where m > {}", 'N', "TBLJ", false, 0},
+		{"select key as a, upper(a) as b, b + 'x' as c where c ^= {} order by c", 'T', "NBLJ", false, 0},
 		{"put ({}, 'v')", 0, "BLJ", false, 0},
 		{"put ('k', {})", 0, "BLJ", false, 0},
 		{"put ('a', 'b'), ('k', {})", 0, "BLJ", false, 0},
@@ -212,6 +225,9 @@ func c14KeywordFaults() []c14Case {
 		// aggregate functions outside a select list
 		"select * where count(1) > 0", "select key where sum(int(value)) > 1", "delete where count(1) > 0", "select key where upper(group_concat(key, ',')) = 'A'",
 		"select key where key = 'a' & max(value) = 'x'", "put ('a', count(1))", "put (group_concat('a', ','), 'v')", "remove min('a')",
+		// aggregate functions inside a scalar call or another aggregate
+		"select int(count(1)) where true", "select upper(group_concat(key, ',')) where true", "select sum(int(count(1))) where true", "select key, strlen(group_concat(value, '')) where true group by key",
+		"select count(sum(1)) where true",
 	} {
 		out = append(out, c14Case{Stmt: q, Mutant: true, Fault: "aggregate / clause misuse detectable at plan time"})
 	}
